@@ -416,7 +416,29 @@ func runC01TransferSites(c *Ctx) {
 			if nphi == 0 {
 				// offset is the File offset itself, which the loop advances by a store (checked by C12.R5)
 				c.check(startOK(O) && isOffsetField(firstKey(O)), "R1", site+" (i) offset is the File offset", pos(in), "transfer at f.offset, advanced each iteration", "offset "+O.String()+" neither advances with a cursor nor is the File offset")
-				// buffer: whole scratch buffer or its filled prefix
+				// buffer: a read fills the whole scratch buffer; a write sends the prefix that this iteration's read of
+				// the source filled, nothing of what the buffer held before
+				if nm == "writeChunkAt" {
+					filled := false
+					if sl, ok := buf.(*ssa.Slice); ok && sl.Low == nil && sl.High != nil {
+						for _, l := range leavesOf(sl.High) {
+							if l.Kind == leafCallResult && isFillCall(l.Call) && l.Idx == 0 && sameValue(l.Call.Args[1], sl.X) {
+								filled = true
+							}
+						}
+						if !filled {
+							for _, l := range leavesOfIface(sl.High) {
+								if b2, ok := accumulatedRead(l); ok && sameValue(b2, sl.X) {
+									filled = true
+								}
+							}
+							if b2, ok := accumulatedRead(sl.High); ok && sameValue(b2, sl.X) {
+								filled = true
+							}
+						}
+					}
+					c.check(filled, "R1", site+" (ii) the chunk is what was just read", pos(in), "chunk = buf[:n] with n from the fill of buf", "the chunk written is not the prefix filled by this iteration's read of the source: the last chunk carries stale bytes of the buffer, the file gets them appended")
+				}
 				return
 			}
 			if nphi != 1 || O.coef[pkey] != 1 {
@@ -480,6 +502,8 @@ func runC01Rest(c *Ctx) {
 	checkWriteToEndsAtEOF(c, "R10")
 	checkSourceErrorsReturned(c, "R11")
 	checkFillCountsEveryRead(c, "R19")
+	checkReadReplyTruthTable(c, "R20")
+	checkNilOnlyWhenComplete(c, "R21")
 	// R12: the count equals the bytes moved — not when the chunk offsets wrapped (shared with C12.R10)
 	c.withRule("R12", func() { checkChunkOffsetsCannotWrap(c, "R10") })
 	checkAppendStartsAtEnd(c, "R13")
@@ -1589,4 +1613,32 @@ func checkFillCountsEveryRead(c *Ctx, rule string) {
 			"n += nn before the error is looked at", "the fill helper can return (or read again) without adding the count of a Read: bytes that the source delivered together with its error are consumed but not counted, and never sent")
 	}
 	c.check(len(reads) >= 1, rule, "readFull reads the source", p.Pos(fn.Pos()), fmt.Sprintf("%d Read calls", len(reads)), "readFull no longer calls Read")
+}
+
+// checkReadReplyTruthTable (C01.R20): a server's ReadAt may return bytes together with io.EOF (every file whose length is
+// not a multiple of the request size ends that way).  At the three READ sites the reply is a STATUS exactly when there
+// is an error and (it is not EOF or nothing was read) — evaluated for the six combinations of err {nil, EOF, other} x
+// n {0, >0}; with "any error is a STATUS" the tail of the file is never delivered and the copy ends short with a nil error.
+func checkReadReplyTruthTable(c *Ctx, rule string) {
+	p := c.P
+	n := 0
+	for _, spec := range []struct {
+		fn  string
+		via bool
+	}{{"handlePacket", true}, {"fileget", false}, {"fileputget", false}} {
+		fn := p.Func(spec.fn)
+		if fn == nil {
+			c.missing(rule, spec.fn)
+			continue
+		}
+		for _, in := range callsWhere(fn, func(cc *ssa.CallCommon) bool { return cc.IsInvoke() && cc.Method.Name() == "ReadAt" }) {
+			call, ok := in.(*ssa.Call)
+			if !ok {
+				continue
+			}
+			n++
+			checkEOFConditionX(c, fn, call, rule, "READ in "+spec.fn, spec.via, "answers the data", "the data")
+		}
+	}
+	c.check(n >= 3, rule, "READ sites", "?", fmt.Sprintf("%d ReadAt sites", n), fmt.Sprintf("only %d ReadAt sites found in handlePacket, fileget and fileputget", n))
 }
